@@ -51,13 +51,20 @@ class Tools:
         rc2, o2, e2 = self.run_gcc(src)
         a = {l.split()[1]: ' '.join(l.split()[2:]) for l in o1.split('\n') if l.startswith('L ')}
         b = {l.split()[1]: ' '.join(l.split()[2:]) for l in o2.split('\n') if l.startswith('L ')}
+        # storage c2m allocates for a global object of each type (MIR text: `gobj<i>: bss <n>`)
+        mir = src[:-2] + '.mir'
+        vlib.sh([self.c2m, src, '-S', '-o', mir], timeout=300, cwd=self.dir)
+        bss = {}
+        if os.path.exists(mir):
+            for m in re.finditer(r'^gobj(\d+):\s+bss\s+(\d+)', open(mir, errors='replace').read(), re.M):
+                bss[m.group(1)] = int(m.group(2))
         rcm, om, em = vlib.run_lines(self.model, [G.ty_text(t) for t in decls])
         if rcm != 0 or len(om) != len(decls):
             raise vlib.BuildError('model driver failed: rc=%d %s' % (rcm, em[-500:]))
         res = []
         for i, t in enumerate(decls):
             mc, ms = [' '.join(x.split()[1:]) for x in om[i].split('|')]
-            res.append(dict(c2m=a.get(str(i)), gcc=b.get(str(i)), mc=mc, ms=ms))
+            res.append(dict(c2m=a.get(str(i)), gcc=b.get(str(i)), mc=mc, ms=ms, bss=bss.get(str(i))))
         info = dict(c2m_rc=rc1, c2m_err=e1[-400:], gcc_rc=rc2, gcc_err=e2[-400:])
         return res, info
 
@@ -74,6 +81,8 @@ def verdict(r):
         return 'model-c2m'
     if r['gcc'] != r['ms']:
         return 'model-sysv'
+    if r.get('bss') is None or r['bss'] < int(r['c2m'].split()[0]):
+        return 'bss-short'
     return 'ok'
 
 
@@ -120,7 +129,7 @@ def layout_part(chk, tools, decls, label):
     chk.log('%s: %d declarations, verdicts %s' % (label, len(decls), {k: len(v) for k, v in bad.items()} or 'all ok'))
     seen = set()
     real = 0
-    for v in ('abi-mismatch', 'c2m-fails', 'gcc-rejects', 'model-c2m', 'model-sysv'):
+    for v in ('abi-mismatch', 'c2m-fails', 'gcc-rejects', 'bss-short', 'model-c2m', 'model-sysv'):
         for t, r in bad.get(v, [])[:6]:
             if v in ('gcc-rejects',):
                 # generator produced something gcc does not accept: a harness problem, never silent
@@ -138,6 +147,11 @@ def layout_part(chk, tools, decls, label):
             if v == 'abi-mismatch':
                 real += 1
                 chk.finding('layout:' + txt, obj, 'c2m and gcc lay out differently: %s  c2m[%s] gcc[%s]' % (txt, rr[0]['c2m'], rr[0]['gcc']))
+            elif v == 'bss-short':
+                real += 1
+                obj['bss'] = rr[0]['bss']
+                chk.finding('bss-short:' + txt, obj, 'c2m allocates %s bytes for a global object whose sizeof is %s: %s' % (
+                    rr[0]['bss'], rr[0]['c2m'].split()[0], txt))
             elif v == 'c2m-fails':
                 real += 1
                 chk.finding('c2m-fails:' + txt, obj, 'c2m fails on a declaration gcc accepts: %s (%s)' % (txt, inf['c2m_err'][-200:]))
@@ -190,7 +204,7 @@ def replay(chk, path):
             res, info = tools.layout([t])
             r = res[0]
             print('decl :', rp['decl'])
-            for k in ('c2m', 'gcc', 'mc', 'ms'):
+            for k in ('c2m', 'gcc', 'mc', 'ms', 'bss'):
                 print('%-5s: %s' % (k, r[k]))
             v = verdict(r)
             print('verdict:', v)
